@@ -68,9 +68,10 @@ Section Complete.
     intros E; inversion E; subst m2; clear E.
     set (r := raw mod q) in *. set (m2 := ((c * x) mod q + r) mod q).
     pose proof (Z.mod_pos_bound ((c * x) mod q + r) q Hq) as Bm. fold m2 in Bm.
-    pose proof (elem_pow g r Hg ltac:(lia)) as El. unfold elem in El. rewrite El. cbn [negb].
+    pose proof (elem_pow g r Hg ltac:(lia)) as El. unfold elem in El. rewrite El.
+    pose proof (elem_pow g x Hg Hx) as Ek. unfold elem in Ek. rewrite Ek. cbn [negb orb].
     rewrite Z.abs_eq by lia. destruct (q <=? m2) eqn:Q2; [lia|].
-    rewrite (fpowm_alias_spec g q m2 p Hp Hq Bm Ht).
+    rewrite (fpowm_spec g q m2 p Hp Hq Bm Ht).
     unfold mpz_powm. destruct (c <? 0) eqn:C0; [lia|].
     rewrite <- powm_mul by lia.
     rewrite (powm_inverse p q g Hp Hq Hg (x * c)) by nia.
@@ -191,6 +192,7 @@ Section Complete.
       rewrite (Z.mod_small v2 q) by lia.
       unfold or_verify. fold p q g. cbn [negb]. rewrite !Z.abs_eq by lia.
       repeat match goal with |- context [q <=? ?a] => destruct (q <=? a) eqn:?; [lia|] end. cbn [orb].
+      repeat match goal with |- context [q <=? ?a] => destruct (q <=? a) eqn:?; [lia|] end. cbn [orb].
       unfold mpz_powm.
       repeat match goal with |- context [?a <? 0] => destruct (a <? 0) eqn:?; [lia|] end.
       change (powm y1 ((c - w) mod q) p) with (powm (powm g1 alpha p) ((c - w) mod q) p). rewrite (or_known g1 alpha ((c - w) mod q) v1 Hg1 Ha) by lia.
@@ -218,6 +220,7 @@ Section Complete.
       pose proof (Z.mod_pos_bound (v2 - ((c - w) mod q * alpha) mod q) q Hq) as Br2.
       rewrite (Z.mod_small v1 q) by lia.
       unfold or_verify. fold p q g. cbn [negb]. rewrite !Z.abs_eq by lia.
+      repeat match goal with |- context [q <=? ?a] => destruct (q <=? a) eqn:?; [lia|] end. cbn [orb].
       repeat match goal with |- context [q <=? ?a] => destruct (q <=? a) eqn:?; [lia|] end. cbn [orb].
       unfold mpz_powm.
       repeat match goal with |- context [?a <? 0] => destruct (a <? 0) eqn:?; [lia|] end.
